@@ -42,8 +42,9 @@ deriving Repr, DecidableEq, Inhabited
 def Cfg.check (c : Cfg) : Res Unit :=
   match c.edns with
   | some (_, payload) =>
-    if payload < DNS_MESSAGE_BUFFER_MIN_LENGTH then .err .badParam
-    else if c.cfgbuf > 0 ∧ payload > c.cfgbuf then .err .badParam
+    -- both conditions are regenerated from `ClientConfig::check` on every run
+    if cfg_payload_too_small payload then .err .badParam
+    else if cfg_payload_exceeds_buffer payload c.cfgbuf then .err .badParam
     else .ok ()
   | none => .ok ()
 
@@ -51,10 +52,23 @@ def Cfg.udpFirst (c : Cfg) : Bool := if c.async then async_udp_first c.strat els
 def Cfg.tcpAllowed (c : Cfg) : Bool := if c.async then async_tcp_allowed c.strat else std_tcp_allowed c.strat
 def Cfg.queryBufferSize (c : Cfg) : Nat := if c.async then ASYNC_QUERY_BUFFER_SIZE else STD_QUERY_BUFFER_SIZE
 
+/-! decision expressions regenerated from the source of the client that `c` stands for -/
+def Cfg.bufTooShort (c : Cfg) (buflen : Nat) : Bool := if c.async then async_buf_too_short buflen else std_buf_too_short buflen
+def Cfg.udpBranch (c : Cfg) : Bool := if c.async then async_udp_branch c.udpFirst else std_udp_branch c.udpFirst
+def Cfg.tcpFallback (c : Cfg) (tc : Bool) : Bool :=
+  if c.async then async_tcp_fallback tc c.tcpAllowed else std_tcp_fallback tc c.tcpAllowed
+def Cfg.rrsetNoBuffer (c : Cfg) : Bool := if c.async then async_rrset_no_buffer c.cfgbuf else std_rrset_no_buffer c.cfgbuf
+def Cfg.rrsetBadClass (c : Cfg) (isData : Bool) : Bool :=
+  if c.async then async_rrset_bad_class isData else std_rrset_bad_class isData
+def Cfg.ups (c : Cfg) (payload buflen : Nat) : Nat :=
+  if c.async then async_ups_field (async_ups payload buflen) else std_ups_field (std_ups payload buflen)
+
 /-- the OPT record `prepare_message()` asks for: `Opt::new(version, min(udp_payload_size, buf.len()))` -/
 def clientOpt (c : Cfg) (buflen : Nat) : Option (Nat × Nat) :=
   match c.edns with
-  | some (version, payload) => some (version, (Nat.min payload buflen) % 65536)   -- `ups as u16`
+  | some (version, payload) =>
+    -- `let ups = …; Opt::new(version, ups as u16)`, both expressions regenerated from the source
+    some (version, c.ups payload buflen)
   | none => none
 
 /-- `prepare_message()`: the query bytes (2-byte length prefix included), for message id `id` -/
@@ -71,11 +85,15 @@ def udpAccept (id : Nat) (qname : Bytes) (qtype qclass : Nat) (d : Bytes) : Opti
   | .ok mr =>
     match mr.header d with
     | (.ok h, mr1) =>
-      if h.id ≠ id then none
+      -- the two decision expressions of the loop are regenerated from the source on every run
+      -- (`Generated.std_udp_id_reject`, `std_udp_question_match`; `C12.async_filter_is_std` pins the
+      -- template's copies to the same functions)
+      if std_udp_id_reject h.id id then none
       else
         match mr1.question d .theQuestion with
         | (.ok (.owned q), _) =>
-          if q.qtype == qtype && q.qclass == qclass && nameEqStr q.qname qname then some h.flags else none
+          if std_udp_question_match (q.qtype == qtype) (q.qclass == qclass) (nameEqStr q.qname qname) then some h.flags
+          else none
         | _ => none
     | _ => none
   | _ => none
@@ -217,8 +235,10 @@ def tcpFraming (buflen : Nat) (s : Stream) : TcpOutcome :=
   | .eof => .eof
   | .stalled => .timeout
   | .ok pfx rest =>
-    let n := (pfx.getD 0 0).toNat * 256 + (pfx.getD 1 0).toNat
-    if n > buflen then .bufferTooShort n
+    -- prefix value and bound test regenerated from `tcp_exchange` (`C14.async_framing_is_std` pins the
+    -- template's copies to the same functions)
+    let n := std_tcp_prefix (pfx.getD 0 0).toNat (pfx.getD 1 0).toNat
+    if std_tcp_too_big n buflen then .bufferTooShort n
     else
       match readExact n rest #[] with
       | .eof => .eof
@@ -276,7 +296,7 @@ def tcpResult (o : TcpOutcome) : QueryResult :=
     left of the lifetime -/
 def queryRaw (c : Cfg) (id : Nat) (qname : Bytes) (qtype qclass buflen : Nat) (udpScript tcpScript : List (List Item))
     (queue : List Dgram) (dropAt : Option Nat) : RawRun :=
-  if buflen < DNS_MESSAGE_BUFFER_MIN_LENGTH then
+  if c.bufTooShort buflen then
     { result := .err (.bufferTooShort DNS_MESSAGE_BUFFER_MIN_LENGTH), seen := ⟨[], 0⟩, queue, msg := none }
   else
     match prepareMessage c id qname qtype qclass buflen with
@@ -293,12 +313,12 @@ def queryRaw (c : Cfg) (id : Nat) (qname : Bytes) (qtype qclass buflen : Nat) (u
           -- everything that arrives before the lifetime ends is visible; after that: `Timeout`
           let stream := streamBefore (entryTimed (tcpScript.getD 0 [.close]) startAt []) c.lt
           { result := tcpResult (tcpFraming buflen stream), seen := ⟨sends, 1⟩, queue, msg := some msg }
-      if c.udpFirst then
+      if c.udpBranch then
         let steps := c.lt / (c.qt.getD c.lt).max 1 + 2
         let run := udpExchange c id qname qtype qclass buflen udpScript dropAt steps 0 queue []
         match run.outcome with
         | .accepted bytes flags at_ =>
-          if flags_tc flags && c.tcpAllowed then tcp run.sends at_ run.queue
+          if c.tcpFallback (flags_tc flags) then tcp run.sends at_ run.queue
           else { result := .ok bytes.size bytes, seen := ⟨run.sends, 0⟩, queue := run.queue, msg := some msg }
         | .timeout _ => { result := .err .timeout, seen := ⟨run.sends, 0⟩, queue := run.queue, msg := some msg }
         | .dropped _ => { result := .dropped, seen := ⟨run.sends, 0⟩, queue := run.queue, msg := some msg }
@@ -308,8 +328,8 @@ def queryRaw (c : Cfg) (id : Nat) (qname : Bytes) (qtype qclass buflen : Nat) (u
     the bytes `query_raw` returned -/
 def queryRRSet (c : Cfg) (id : Nat) (qname : Bytes) (qclass : Nat) (udpScript tcpScript : List (List Item))
     (queue : List Dgram) (dropAt : Option Nat) : Res RRSet × RawRun :=
-  if c.cfgbuf = 0 then (.err .badParam, { result := .err .badParam, seen := ⟨[], 0⟩, queue, msg := none })
-  else if !(class_is_data qclass) then
+  if c.rrsetNoBuffer then (.err .badParam, { result := .err .badParam, seen := ⟨[], 0⟩, queue, msg := none })
+  else if c.rrsetBadClass (class_is_data qclass) then
     (.err (.unsupportedClass qclass), { result := .err (.unsupportedClass qclass), seen := ⟨[], 0⟩, queue, msg := none })
   else
     let run := queryRaw c id qname TYPE_A qclass c.cfgbuf udpScript tcpScript queue dropAt
@@ -323,7 +343,7 @@ def queryRRSet (c : Cfg) (id : Nat) (qname : Bytes) (qclass : Nat) (udpScript tc
 
 /-- `lifetime_left()`: `elapsed` = ms since `start`; `none` = `Err(Error::Timeout)` -/
 def lifetimeLeft (c : Cfg) (elapsed : Nat) : Option Nat :=
-  if elapsed ≥ c.lt then none else some (c.lt - elapsed)
+  if std_lifetime_over elapsed c.lt then none else some (std_lifetime_left elapsed c.lt)
 
 /-- outcome of `query_left()` -/
 inductive QueryLeft where
@@ -344,7 +364,7 @@ def queryLeft (c : Cfg) (sinceStart sinceQueryStart : Nat) : QueryLeft :=
   | none => .lifetimeOver
   | some ll =>
     let timeout := c.qt.getD c.lt
-    if sinceQueryStart < timeout then .left (Nat.min (timeout - sinceQueryStart) ll) else .attemptOver
+    if std_attempt_over sinceQueryStart timeout then .attemptOver else .left (std_query_left sinceQueryStart timeout ll)
 
 /-! ### the clients' internal buffer (`ClientImpl::buf`, `take_buf`, `query_rrset`) -/
 
